@@ -226,6 +226,56 @@ def free_run(rng: random.Random, idx: int, n_threads: int, extra: bool = False):
     deserializer(lazy=lazy_d, target=LZ)
     serializer(lazy=lazy_s, source=LZ)
 
+    # a class serialized (lazily, slowly the first time) as a NewType over int, inside a container whose RESOLVED
+    # form List[Cents] is itself a named type: schema generation resolves the conversion of the container first
+    from dataclasses import dataclass as _dc
+    from typing import NewType as _NT
+
+    from apischema import type_name as _type_name
+    from apischema.objects import object_serialization as _objser
+
+    Cents = _NT(f"Cents{idx}", int)
+
+    class AM:
+        def __init__(self, n):
+            self.n = n
+
+    AM.__qualname__ = AM.__name__ = f"AM{idx}"
+    _type_name(f"CentsList{idx}")(_List[Cents])
+
+    def lazy_am():
+        time.sleep(0.002)
+        return Conversion(lambda x: Cents(x.n), source=AM, target=Cents)
+
+    serializer(lazy=lazy_am, source=AM)
+
+    # an object_serialization conversion whose members are deferred in a (slow) function
+    @_dc
+    class OS:
+        ident: int
+        content: str
+
+    def size(o):
+        return len(o.content)
+
+    size.__annotations__ = {"o": OS, "return": int}     # (this module has postponed annotations)
+
+    def os_members():
+        time.sleep(0.002)
+        return [..., size]
+
+    os_conv = _objser(OS, os_members)
+
+    def conv_calls(schema_first: bool):
+        a = lambda: json.dumps(serialization_schema(_List[AM]), sort_keys=True)  # noqa: E731
+        b = lambda: repr(serialize(_List[AM], [AM(1), AM(2)]))  # noqa: E731
+        c = lambda: json.dumps(serialization_schema(OS, conversion=os_conv), sort_keys=True)  # noqa: E731
+        d = lambda: repr(serialize(OS, OS(1, "abc"), conversion=os_conv))  # noqa: E731
+        res = {}
+        for k, fn in ((("a", a), ("c", c), ("b", b), ("d", d)) if schema_first else (("d", d), ("b", b), ("c", c), ("a", a))):
+            res[k] = fn()
+        return [res[k] for k in "abcd"] + [json.dumps(serialization_schema(OS, conversion=os_conv), sort_keys=True)]
+
     def lz_calls(schema_first: bool):
         a = lambda: json.dumps(deserialization_schema(LZ), sort_keys=True)  # noqa: E731
         b = lambda: repr(deserialize(LZ, 3))  # noqa: E731
@@ -241,7 +291,7 @@ def free_run(rng: random.Random, idx: int, n_threads: int, extra: bool = False):
         (serialize(obj) dispatches on the runtime class: one shared AnyMethod per option vector)."""
         # first use of the lazily converted class, the schema side and the (de)serialization side in a different
         # order from one thread to the next
-        out = lz_calls(schema_first) if extra else []
+        out = (conv_calls(schema_first) + lz_calls(schema_first)) if extra else []
         for c in names:
             obj = deserialize(getattr(mod, c), sample(c))
             out += [repr(obj), repr(serialize(obj)), repr(serialize(getattr(mod, c), obj)), repr(serialize([obj, 1]))]
